@@ -34,6 +34,7 @@ type Session struct {
 	Class  string   `json:"class"`
 	Always bool     `json:"always"`
 	CRLF   bool     `json:"crlf"` // the text uses \r\n line ends
+	Pad    int      `json:"pad"`  // this many empty lines stand in front of Lines (Fault and Stmt count them)
 	// Route: how the text reaches the engine: "" one compile; incr: the faulty rule alone is compiled first (at line 1)
 	// and the text then arrives as an incremental update; pool / poolupd / poolincr: the same through a pool
 	Route string `json:"route"`
@@ -55,7 +56,7 @@ func runLines(s *Session) []N {
 	if s.CRLF {
 		nl = "\r\n"
 	}
-	text := strings.Join(s.Lines, nl) + nl
+	text := strings.Repeat(nl, s.Pad) + strings.Join(s.Lines, nl) + nl
 	apis := map[string]interface{}{
 		"obj": &LObj{In: &LInner{}}, "arr": []int64{1, 2, 3}, "m": map[string]int64{"k": 1}, "ev": func(v interface{}) {},
 		"boom": func() int64 { panic("boom") }, "uz": uint64(0), "iz": int64(0), "fz": float64(0),
@@ -67,7 +68,7 @@ func runLines(s *Session) []N {
 	// the faulty rule on its own, from its `rule` line to its `end` line: the earlier text of the incremental routes
 	first := ""
 	if s.Route != "" && s.Route != "pool" {
-		lo, hi := s.Fault-1, s.Fault-1
+		lo, hi := s.Fault-s.Pad-1, s.Fault-s.Pad-1
 		for lo > 0 && !strings.HasPrefix(strings.TrimSpace(s.Lines[lo]), "rule ") {
 			lo--
 		}
@@ -124,6 +125,10 @@ func runLines(s *Session) []N {
 			err = eng.Execute(rb, true)
 		}()
 	}
+	shown := text
+	if s.Pad > 0 {
+		shown = fmt.Sprintf("<%d empty lines>%s", s.Pad, nl) + text[s.Pad*len(nl):]
+	}
 	cited := []int{}
 	msg := ""
 	if err != nil {
@@ -138,7 +143,7 @@ func runLines(s *Session) []N {
 		}
 	}
 	return []N{{"ev": "session", "id": s.ID}, {"ev": "lcase", "err": err != nil, "panic": pv != nil, "cited": cited,
-		"fault": s.Fault, "stmt": s.Stmt, "class": s.Class, "always": s.Always, "msg": trunc(msg, 400), "text": text}}
+		"fault": s.Fault, "stmt": s.Stmt, "class": s.Class, "always": s.Always, "msg": trunc(msg, 400), "text": shown}}
 }
 
 func trunc(s string, n int) string {
